@@ -29,6 +29,9 @@ func fmtGemfile() *format {
 			{name: "deps", labels: []string{"none", "sub-dependency-lines"}},
 			{name: "sections", labels: []string{"gem-only", "full", "sources-at-end+checksums"}},
 			{name: "blank", labels: []string{"1", "2"}},
+			// blank lines INSIDE a source section (after `specs:`, between specs): Bundler's
+			// LockfileParser splits on runs of newlines and ignores lines that match nothing
+			{name: "inblank", labels: []string{"none", "empty-lines-inside-sections", "whitespace-only-lines-inside-sections"}},
 			{name: "othersrc", kind: posIdx, labels: []string{"GIT", "PATH"}},
 		},
 		newEx: func() filesystem.Extractor { return gemfilelock.New() },
@@ -38,7 +41,14 @@ func fmtGemfile() *format {
 		oi, ok := l.at("othersrc") // records 0..oi live in a GIT / PATH section, the rest in GEM
 		var truth []rec
 		spec := func(r rec) []string {
-			out := []string{"    " + r.Name + " (" + r.written() + ")"}
+			var out []string
+			switch l.get("inblank") {
+			case 1:
+				out = append(out, "")
+			case 2:
+				out = append(out, "  ")
+			}
+			out = append(out, "    "+r.Name+" ("+r.written()+")")
 			if l.get("deps") == 1 {
 				out = append(out, "      concurrent-ruby (~> 1.0, >= 1.0.2)", "      not-a-package (= 9.9.9)", "      tzinfo")
 			}
